@@ -24,10 +24,12 @@ struct CallSpec {
     op: &'static str, // get | put | fn | closest | peers | announce | boot
     target: &'static str, // A | B | self
     after: Option<usize>, // start after this call is done; None = at once
+    during_store: Option<usize>, // start once this put's store requests are on the wire (its lookup is over)
 }
 
 fn scenario(name: &str) -> Vec<CallSpec> {
-    let c = |label, op, target, after| CallSpec { label, op, target, after };
+    let c = |label, op, target, after| CallSpec { label, op, target, after, during_store: None };
+    let ds = |label, op, target, put| CallSpec { label, op, target, after: None, during_store: Some(put) };
     match name {
         "get_hit" => vec![c("g", "get", "A", None)],
         "get_miss" => vec![c("g", "get", "B", None)],
@@ -43,9 +45,17 @@ fn scenario(name: &str) -> Vec<CallSpec> {
         "put_put_same" => vec![c("p1", "put", "A", None), c("p2", "put", "A", None)],
         "peers" => vec![c("a", "announce", "A", None), c("g", "peers", "A", Some(0))],
         "get_then_put" => vec![c("g", "get", "A", None), c("p", "put", "A", Some(0))],
+        "putmut_getmut_seq" => vec![c("p", "putmut", "M", None), ds("g", "getmut_seq", "M", 0)],
+        "putmut_getmut" => vec![c("p", "putmut", "M", None), ds("g", "getmut", "M", 0)],
+        "put_get_during_store" => vec![c("p", "put", "A", None), ds("g", "get", "A", 0)],
+        "putmut_twice_cached" => vec![c("p1", "putmut", "M", None), c("p2", "putmut2", "M", Some(0)), ds("g", "getmut_seq", "M", 1)],
         "three" => vec![c("f", "fn", "A", None), c("p", "put", "A", None), c("g", "get", "A", None)],
         _ => vec![c("g", "get", "A", None)],
     }
+}
+
+fn specs_have_during_store(name: &str) -> bool {
+    scenario(name).iter().any(|c| c.during_store.is_some())
 }
 
 struct Faults {
@@ -67,6 +77,8 @@ pub fn run_plan(b: u64, plan: &Value, seed: u64) -> Value {
     let val = b"the stored value".to_vec();
     let ta = crypto::immutable_target(&val);
     let tb = crypto::immutable_target(b"another value");
+    let msk = crypto::keypair(6);
+    let tm = crypto::mutable_target(&msk.verifying_key().to_bytes(), None);
     let mut f = Faults { drop: HashSet::new(), dup: HashSet::new(), late: HashSet::new(), slow: HashSet::new(), crash_at: HashSet::new(), crashed: HashSet::new(), next: 0 };
     for ft in plan["faults"].as_array().cloned().unwrap_or_default() {
         let i = ft["i"].as_u64().unwrap_or(0) as usize;
@@ -85,6 +97,7 @@ pub fn run_plan(b: u64, plan: &Value, seed: u64) -> Value {
     let nodes = krpc::compact_nodes(&all);
     let val2 = val.clone();
     let dead = name == "dead_boot";
+    let slow_store = specs_have_during_store(&name);
     let policy: Policy = Box::new(move |me, m, w| {
         if dead {
             return Reply::Silent;
@@ -99,6 +112,9 @@ pub fn run_plan(b: u64, plan: &Value, seed: u64) -> Value {
         } else {
             krpc::response(&m.tid, &me.id, B::dict(), Some(&w.from))
         };
+        if q == "put" && slow_store {
+            return Reply::One(base, 200);
+        }
         if !*armed2.borrow() {
             return Reply::One(base, 10);
         }
@@ -148,18 +164,33 @@ pub fn run_plan(b: u64, plan: &Value, seed: u64) -> Value {
         let mut started_one = false;
         for i in 0..specs.len() {
             if calls[i].is_none() {
-                let ready = match specs[i].after {
-                    None => true,
-                    Some(j) => calls[j].as_ref().map(|c| c.done()).unwrap_or(false),
+                let ready = match (specs[i].after, specs[i].during_store) {
+                    (_, Some(j)) => {
+                        // the put's store requests have reached a peer, it has not completed yet
+                        let put_target = if specs[j].target == "M" { tm } else if specs[j].target == "A" { ta } else { tb };
+                        calls[j].as_ref().map(|c| !c.done()).unwrap_or(false)
+                            && net.seen().iter().any(|s| s.msg.q.as_deref() == Some("put") && s.msg.target() == Some(put_target))
+                    }
+                    (None, None) => true,
+                    (Some(j), None) => calls[j].as_ref().map(|c| c.done()).unwrap_or(false),
                 };
                 if ready {
                     let t = match specs[i].target {
                         "A" => ta,
                         "B" => tb,
+                        "M" => tm,
                         _ => self_id20,
                     };
                     let call = match specs[i].op {
                         "get" => sim.call_get(c, GetKind::Immutable, t, specs[i].label),
+                        "getmut" => sim.call_get(c, GetKind::Mutable { salt: None, seq: None }, t, specs[i].label),
+                        "getmut_seq" => sim.call_get(c, GetKind::Mutable { salt: None, seq: Some(1) }, t, specs[i].label),
+                        "putmut" | "putmut2" => {
+                            let seq = if specs[i].op == "putmut" { 1 } else { 2 };
+                            let item = dht::MutableItem::new(&msk, format!("mutable v{seq}").as_bytes(), seq, None);
+                            let cas = if seq == 2 { Some(1) } else { None };
+                            sim.call_put(c, PutRequestSpecific::PutMutable(v::PutMutableRequestArguments::from(item, cas)), None, specs[i].label)
+                        }
                         "fn" => sim.call_get(c, GetKind::FindNode, t, specs[i].label),
                         "closest" => sim.call_get(c, GetKind::ClosestNodes, t, specs[i].label),
                         "peers" => sim.call_get(c, GetKind::Peers, t, specs[i].label),
